@@ -35,8 +35,11 @@ PROPS = {
         "module": "ZenonVerif.Props.C10",
         "streams": [S("contract", 60, 1500)],
         "rule": CONTRACT_RULE,
-        "partial": "reward updates (Update / CollectReward) are outside the liability sums and enter the replay as observed "
-                   "outcomes; liquidity and bridge are not modelled",
+        "partial": "reward bookkeeping (Update / CollectReward), legacy pillar registration, liquidity administration and "
+                   "reward pools enter the replay as observed outcomes and are outside the liability sums; for liquidity only "
+                   "LiquidityStake / CancelLiquidityStake / BurnZnn are modelled and backing holds only without BurnZnn/Fund "
+                   "(known finding F14); the bridge (wrap / unwrap / redeem, T5) is not covered: no stream, no theorem; "
+                   "stake entries deleted by a reward epoch are not reached (first epoch only)",
         "assumptions": ["send-block hashes are collision-free (fresh ids)", "every amount is below 2^256 (token max supply is 2^255-1)",
                         "timestamps and heights stay below 2^62 (no int64/uint64 wrap-around)"],
     },
